@@ -24,7 +24,7 @@ for prop in "$@"; do
   git apply $d/patch.diff || { echo "patch does not apply to /repo"; exit 2; }
   (cd /verif && ./run $prop quick > /tmp/seed.$$.$prop 2>&1); rc=$?
   git checkout -- . ; git clean -fdq
-  echo "--- check $prop exit=$rc"; grep -E "VIOLATION|INTERNAL|violation:" /tmp/seed.$$.$prop | head -4 | cut -c1-200
+  echo "--- check $prop exit=$rc"; grep -E "VIOLATION|INTERNAL|violation" /tmp/seed.$$.$prop | head -4 | cut -c1-200
   results="$results $prop=$rc"
 done
 echo "$(date -u +%FT%TZ) RESULT $name suite=$suite with=$with without=$without checks:$results" >> /verif/seeded/RESULTS.log
